@@ -27,6 +27,7 @@ EDGES = [
     "OtherTwoEnded",
     "RenamedDirected",  # constructor names its ends differently
     "FalsyClassEdge",  # the class object itself is falsy
+    "FrozenEdge",  # read-only v1 / v2: ends cannot be re-pointed after construction
 ]
 
 
